@@ -278,7 +278,13 @@ func runJobs(jobs []*job, n int) {
 				cmd := exec.Command(j.bin, j.args...)
 				cur := filepath.Join(verifDir, ".build", "cur", fmt.Sprintf("%d-%s", os.Getpid(), strings.NewReplacer("/", "_", "[", "_", "]", "_", ",", "_").Replace(j.name)))
 				os.MkdirAll(filepath.Dir(cur), 0755)
-				cmd.Env = append(os.Environ(), "GOMAXPROCS=1", "GOTRACEBACK=all", "VERIF_CURFILE="+cur)
+				procs := "GOMAXPROCS=1"
+				if strings.HasSuffix(j.bin, "mcseq") {
+					// Engine B runs real goroutines (processor workers, lexers):
+					// poll loops with 5ns sleeps crawl on a single P
+					procs = "GOMAXPROCS=2"
+				}
+				cmd.Env = append(os.Environ(), procs, "GOTRACEBACK=all", "VERIF_CURFILE="+cur)
 				var so, se bytes.Buffer
 				cmd.Stdout = &so
 				cmd.Stderr = &se
